@@ -79,6 +79,29 @@ def attach_parents(tree):
     return tree
 
 
+def ast_copy(node, _root=True):
+    """structural copy of an AST subtree that does NOT follow the ``_parent`` back-links (``copy.deepcopy`` does, and so
+    copies the whole module for every expression); parents are re-attached inside the copy, the copy's root has none."""
+    if isinstance(node, ast.AST):
+        new = node.__class__()
+        for f in node._fields:
+            if hasattr(node, f):
+                v = ast_copy(getattr(node, f), False)
+                setattr(new, f, v)
+                for c in (v if isinstance(v, list) else [v]):
+                    if isinstance(c, ast.AST):
+                        c._parent = new
+        for a in node._attributes:
+            if hasattr(node, a):
+                setattr(new, a, getattr(node, a))
+        if _root:
+            new._parent = None
+        return new
+    if isinstance(node, list):
+        return [ast_copy(x, False) for x in node]
+    return node
+
+
 def unparse(node):
     return ast.unparse(node)
 
